@@ -11,7 +11,7 @@
                     over m (ideal signatures: unforgeability, one meaning per byte string). *)
 From Coq Require Import List String Bool NArith ZArith.
 Import ListNotations.
-From VF Require Import common.Json gen.Gen_C07 C07.Model C07.Proofs C07.ProofsRT C07.StrictModel C07.ProofsStrict C07.ParseModel C07.ProofsParse C07.ProofsVP C07.ProofsDI.
+From VF Require Import common.Json gen.Gen_C07 C07.Model C07.Proofs C07.ProofsRT C07.StrictModel C07.ProofsStrict C07.ParseModel C07.ProofsParse C07.ProofsVP C07.ProofsDI C07.JwtModel C07.ProofsJwt.
 Open Scope string_scope.
 Open Scope list_scope.
 
@@ -448,6 +448,123 @@ Proof.
   exact (verified_document_exact_partial canon pv_dec seg_dec resolve accepts Hinj signed_by Hpv Hseg _ p k d0 c Honly Hk Hv).
 Qed.
 Print Assumptions jwt_envelope_cannot_override_vc.
+
+(* ---- JWS-SECURED JWT FORMS (no embedded proof; JwtModel.v).  `open` is the JWS verification of C08 (the payload of a
+        token whose signature verifies under the key its header's kid resolves to), `signed` says which payloads the
+        holder of some key has signed.  FULL STATEMENT: whatever bytes ParseCredential is handed - the token, the quoted
+        token, or a JSON object carrying the token in its `jwt` member next to ANY other members - the credential object
+        it builds is decode_cred_jwt of a payload that was signed: nothing of the returned credential comes from
+        outside the signed payload. ---- *)
+Theorem jwt_credential_is_signed_payload :
+  forall (is_jws : string -> bool) (open : string -> option obj) (fmt : Z -> string) (signed : obj -> Prop),
+    (forall t p, open t = Some p -> signed p) ->
+    forall i c, parse_jwt_vc is_jws open fmt i = Some (Some c) ->
+    exists t p, token_of is_jws i = Some t /\ open t = Some p /\ signed p /\ decode_cred_jwt fmt p = Some c.
+Proof.
+  intros is_jws open fmt signed Hs i c H.
+  destruct (parse_reports_signed is_jws open fmt i c H) as (t & p & A & B & C). exists t, p. repeat split; try assumption. exact (Hs t p B).
+Qed.
+Print Assumptions jwt_credential_is_signed_payload.
+
+(* the members standing next to `jwt` in a wrapper object have no influence, and the wrapper is read as its token *)
+Theorem jwt_wrapper_members_ignored :
+  forall is_jws open fmt m m',
+    lookup m "jwt" = lookup m' "jwt" ->
+    parse_jwt_vc is_jws open fmt (InObj m) = parse_jwt_vc is_jws open fmt (InObj m').
+Proof. exact wrapper_ignored. Qed.
+Print Assumptions jwt_wrapper_members_ignored.
+
+Theorem jwt_wrapper_is_its_token :
+  forall is_jws open fmt m t,
+    lookup m "jwt" = Some (JStr t) -> nonempty t = true -> is_jws t = true ->
+    parse_jwt_vc is_jws open fmt (InObj m) = parse_jwt_vc is_jws open fmt (InText t).
+Proof. exact wrapper_is_token. Qed.
+Print Assumptions jwt_wrapper_is_its_token.
+
+(* THE OVERRIDE RULES, member by member, for EVERY payload: the claim object is the `vc` claim or (no non-empty `vc`
+   claim: the SD-JWT v5 layout) consists of members of the payload itself; issuer / issuanceDate / id / expirationDate
+   of the decoded credential are governed by iss / iat-over-nbf / jti / exp of the SAME payload when present (iss goes
+   into the id of an issuer object), every other member is the claim object's. *)
+Theorem jwt_claims_override_rules :
+  forall fmt p c, decode_cred_jwt fmt p = Some c ->
+  exists vc iss jti nbf iat exp,
+    vc_claim p = Some vc /\ str_claim p "iss" = Some iss /\ str_claim p "jti" = Some jti /\
+    num_claim p "nbf" = Some nbf /\ num_claim p "iat" = Some iat /\ num_claim p "exp" = Some exp /\
+    lookup c "issuer" = refined_issuer iss vc /\
+    lookup c "issuanceDate" = refined_issued fmt nbf iat vc /\
+    lookup c "id" = refined_id jti vc /\
+    lookup c "expirationDate" = refined_expired fmt exp vc /\
+    forall k, String.eqb k "issuer" = false -> String.eqb k "issuanceDate" = false -> String.eqb k "id" = false ->
+              String.eqb k "expirationDate" = false -> lookup c k = lookup vc k.
+Proof. exact decode_member_origin. Qed.
+Print Assumptions jwt_claims_override_rules.
+
+Theorem jwt_claim_object_from_payload :
+  forall p vc, vc_claim p = Some vc ->
+    lookup p "vc" = Some (JObj vc) \/ (forall k v, In (k, v) vc -> In (k, v) p).
+Proof. exact vc_claim_from_payload. Qed.
+Print Assumptions jwt_claim_object_from_payload.
+
+(* FIRST CLAUSE for the JWT form: the payload Credential.JWTClaims builds for a credential object - in full or minimised -
+   decodes to a credential with the same members (the issuer object of the minimised form gets its id back), for every
+   date parser / formatter under which the credential's dates are their own re-formatting (whole seconds, UTC). *)
+Theorem jwt_issue_then_parse :
+  forall secs fmt min sub m p ctx,
+    jwt_claims secs min sub m = Some p ->
+    lookup m "@context" = Some ctx ->
+    nonempty (issuer_id m) = true ->
+    date_ok secs fmt (lookup m "issuanceDate") ->
+    (lookup m "expirationDate" = None \/ date_ok secs fmt (lookup m "expirationDate")) ->
+    id_ok (lookup m "id") ->
+    exists c, decode_cred_jwt fmt p = Some c /\
+      (forall k, String.eqb k "issuer" = false -> lookup c k = lookup m k) /\
+      match lookup m "issuer" with
+      | Some (JObj im) => exists im', lookup c "issuer" = Some (JObj im') /\ forall k, lookup im' k = lookup im k
+      | Some (JStr s) => lookup c "issuer" = Some (JStr s)
+      | _ => False
+      end.
+Proof. exact jwt_roundtrip. Qed.
+Print Assumptions jwt_issue_then_parse.
+
+(* presentations: the returned object is the `vp` claim of a signed payload with holder / id governed by its iss / jti *)
+Theorem jwt_presentation_is_signed_payload :
+  forall (is_jws : string -> bool) (open : string -> option obj) t c,
+    parse_jwt_vp is_jws open t = Some (Some c) ->
+    exists p iss jti vp, open t = Some p /\ str_claim p "iss" = Some iss /\ str_claim p "jti" = Some jti /\
+      lookup p "vp" = Some (JObj vp) /\ c = refine_vp iss jti vp /\
+      lookup c "holder" = (if nonempty iss then Some (JStr iss) else lookup vp "holder") /\
+      lookup c "id" = (if nonempty jti then Some (JStr jti) else lookup vp "id") /\
+      forall k, String.eqb k "holder" = false -> String.eqb k "id" = false -> lookup c k = lookup vp k.
+Proof.
+  intros is_jws open t c H.
+  destruct (parse_vp_reports_signed is_jws open t c H) as (p & iss & jti & vp & A & B & C & D & ->).
+  destruct (refine_vp_lookup iss jti vp) as (X & Y & Z). exists p, iss, jti, vp. repeat split; assumption.
+Qed.
+Print Assumptions jwt_presentation_is_signed_payload.
+
+Definition jx_cred : obj :=
+  [("@context", JStr "ctx"); ("credentialSubject", JObj [("id", JStr "did:s")]); ("id", JStr "urn:1");
+   ("issuanceDate", JStr "D1"); ("issuer", JObj [("id", JStr "did:i"); ("name", JStr "N")])].
+Definition jx_secs (d : string) : option Z := if String.eqb d "D1" then Some 100%Z else None.
+Definition jx_fmt (z : Z) : string := if Z.eqb z 100 then "D1" else "D?".
+Example jwt_issue_then_parse_nonvacuous :
+  (* minimised: id, issuanceDate and the issuer id leave the claim object and come back from jti / iat / iss *)
+  jwt_claims jx_secs true "did:s" jx_cred =
+    Some [("iat", JNum 100); ("iss", JStr "did:i"); ("jti", JStr "urn:1"); ("nbf", JNum 100); ("sub", JStr "did:s");
+          ("vc", JObj [("@context", JStr "ctx"); ("credentialSubject", JObj [("id", JStr "did:s")]); ("issuer", JObj [("name", JStr "N")])])] /\
+  (forall p, jwt_claims jx_secs true "did:s" jx_cred = Some p ->
+     match decode_cred_jwt jx_fmt p with Some c => same_members c jx_cred | None => false end = true) /\
+  (* a wrapper object: only its jwt member counts *)
+  parse_jwt_vc (fun t => String.eqb t "h.p.s") (fun t => jwt_claims jx_secs false "did:s" jx_cred) jx_fmt
+    (InObj [("issuer", JStr "did:mallory"); ("jwt", JStr "h.p.s")]) = Some (Some jx_cred) /\
+  (* a payload with other registered claims than the members of its vc claim: the claims win *)
+  decode_cred_jwt jx_fmt [("iss", JStr "did:other"); ("jti", JStr "urn:2"); ("vc", JObj jx_cred)] =
+    Some [("@context", JStr "ctx"); ("credentialSubject", JObj [("id", JStr "did:s")]); ("id", JStr "urn:2");
+          ("issuanceDate", JStr "D1"); ("issuer", JObj [("id", JStr "did:other"); ("name", JStr "N")])].
+Proof.
+  split; [vm_compute; reflexivity|]. split; [|split; vm_compute; reflexivity].
+  intros p H. vm_compute in H. inversion H. vm_compute. reflexivity.
+Qed.
 
 (* ---- THE TYPED OBJECT.  Full statement: the member the typed Credential / Presentation holds is the member the
         proof check saw.  REFUTED (known finding case-variant-member-overrides-signed-member; corpus witness
